@@ -373,6 +373,9 @@ func (c *schemaCtx) field(key, path, parentSchema, fieldName string, t *Type, f 
 			c.enum(full, t.InlineEnum)
 		}
 	case "array":
+		if t.SingleForm != "" {
+			c.add(key, kp+".ext.single_form", qq(t.SingleForm))
+		}
 		if r != nil {
 			if r.MinItems != nil {
 				c.add(key, kp+".rules.min_items", u(r.MinItems))
@@ -387,6 +390,9 @@ func (c *schemaCtx) field(key, path, parentSchema, fieldName string, t *Type, f 
 		c.field(key, kp+".items", parentSchema, fieldName, t.Items, nil)
 		return
 	case "map":
+		if t.SingleForm != "" {
+			c.add(key, kp+".ext.single_form", qq(t.SingleForm))
+		}
 		if r != nil {
 			if r.MinPairs != nil {
 				c.add(key, kp+".rules.min_pairs", u(r.MinPairs))
